@@ -44,6 +44,11 @@ fn should_remove_call(identifiers: &IdentifierTracker, prefix: &Prefix) -> bool 
     }
 }
 
+#[cfg(feature = "verif")]
+pub(crate) fn verif_should_remove_call(identifiers: &IdentifierTracker, prefix: &Prefix) -> bool {
+    should_remove_call(identifiers, prefix)
+}
+
 impl FlawlessRule for RemoveDebugProfiling {
     fn flawless_process(&self, block: &mut Block, _: &Context) {
         let mut processor =
